@@ -201,28 +201,47 @@ func VH_C13_scan_range() {
 
 // vhSpilledLeaf: an index leaf of n entries, each stored as 10 local bytes +
 // one overflow page holding the rest of the 19-byte record.
+func vhSpilledCell(e *vhIndexEnv) cellPayload {
+	en := e.newEnt()
+	full := vhRecEnt(en).Payload
+	pg := make([]byte, 512)
+	copy(pg[4:], full[10:])
+	id := 100 + len(e.ents)
+	e.pager.IDs = append(e.pager.IDs, id)
+	e.pager.Bufs = append(e.pager.Bufs, pg)
+	return cellPayload{Length: int64(len(full)), Payload: full[:10], Overflow: id}
+}
+
 func vhSpilledLeaf(e *vhIndexEnv, n int) int {
 	l := &indexLeaf{}
 	for i := 0; i < n; i++ {
-		en := e.newEnt()
-		full := vhRecEnt(en).Payload
-		pg := make([]byte, 512)
-		copy(pg[4:], full[10:])
-		id := 100 + i
-		e.pager.IDs = append(e.pager.IDs, id)
-		e.pager.Bufs = append(e.pager.Bufs, pg)
-		l.cells = append(l.cells, cellPayload{Length: int64(len(full)), Payload: full[:10], Overflow: id})
+		l.cells = append(l.cells, vhSpilledCell(e))
 	}
 	return e.newPage(l)
 }
 
+// vhSpilledTree: interior root with one spilled entry between a left leaf of
+// nl spilled entries and a right leaf of one — a read failing inside the LEFT
+// child's search comes back through the interior page's loop.
+func vhSpilledTree(e *vhIndexEnv, nl int) int {
+	left := vhSpilledLeaf(e, nl)
+	sep := vhSpilledCell(e)
+	right := vhSpilledLeaf(e, 1)
+	return e.newPage(&indexInterior{cells: []indexInteriorCell{{left: left, payload: sep}}, rightmost: right})
+}
+
 //verif:prop C12,C20
-//verif:bounds index leaf of 3 (thorough: 4) entries whose records spill to one overflow page each; operations ScanEq / ScanMin / ScanRange / Scan with symbolic int64 keys; the failing page read k = any ordinal (one-shot I/O error)
+//verif:bounds 3 (thorough: 4) index entries whose records spill to one overflow page each, as one leaf or as interior entry + left leaf + right leaf; operations ScanEq / ScanMin / ScanRange / Scan with symbolic int64 keys; the failing page read k = any ordinal (one-shot I/O error)
 func VH_C12_index_overflow() {
 	e := &vhIndexEnv{vhTreeEnv: vhNewEnv()}
 	e.desc = verifBool()
 	n := 3 + verifTier()
-	root := vhSpilledLeaf(e, n)
+	var root int
+	if verifChoice(2) == 0 {
+		root = vhSpilledLeaf(e, n)
+	} else {
+		root = vhSpilledTree(e, n-2)
+	}
 	in := &Index{db: e.db, root: root}
 	kv := vhEnt{k: verifInt64()}
 	key := Key{{V: kv.k, Desc: e.desc}}
